@@ -523,3 +523,17 @@ def closure_value(facts, cb, classify=None, bool_atom=None, assumption=None, acc
     if not vals:
         return evr.ev(it.ret)
     return next(iter(vals)) if len(vals) == 1 else None
+
+
+def build_sites(it, pred):
+    """Blocks where a value satisfying pred is built (assigned to the return place or to any local that carries it out of
+    a loop / closure splice) -> list of (bb, value), return sites first."""
+    out = ret_sites_by(it, pred)
+    seen = set(b for b, _ in out)
+    for (bb, si), (l, val, rv) in sorted(it.assign_vals.items(), key=lambda kv: str(kv[0])):
+        if bb in seen or rv is None or rv.get('k') != 'agg':
+            continue
+        if pred(val):
+            out.append((bb, val))
+            seen.add(bb)
+    return out
